@@ -136,7 +136,7 @@ func (c *Class) Evaluation(
 
 	// include ObjectClass
 	if ctx.IsDefineRound() {
-		classNode := base.ClassNode{Frame: ctx.GetFrame(), Class: class}
+		classNode := base.ClassNode{Frame: nextFrame, Class: class}
 		objectClassNode := base.ClassNode{Frame: "Builtin", Class: ""}
 
 		base.ClassInheritanceMap[classNode] =
